@@ -106,27 +106,37 @@ Proof.
 Qed.
 
 (* ------------------------------------------------------------ the pop loop *)
-Lemma pop_until_spec rc n t p :
+(* the loop reaches every block that ends a transaction (a block that is not a contract send) and the stable frontier,
+   popping whole transactions on the way *)
+Lemma pop_until_reach rc n t p : forall mid,
   linked rc -> by_height rc t = Some p -> (n <= Z.to_nat t)%nat ->
-  exists pre r', rc = pre ++ r' /\ pop_until rc n (id_of p) = Some r' /\ frontier_id r' = id_of p /\ Z.of_nat (length r') = t.
+  (bsend p = false \/ (Z.to_nat t <= n)%nat) ->
+  exists pre r', rc = pre ++ r' /\ pop_until rc n (id_of p) mid = Some r' /\ frontier_id r' = id_of p /\ Z.of_nat (length r') = t.
 Proof.
-  induction rc as [|x r IH]; intros Hl Hb Hn; [discriminate|].
-  cbn [pop_until]. destruct (ident_eqb (frontier_id (x :: r)) (id_of p)) eqn:E.
-  - apply ident_eqb_eq in E. exists [], (x :: r). repeat split; try assumption.
-    pose proof (linked_height _ Hl) as Hh. rewrite E in Hh. apply by_height_some in Hb. destruct Hb as [_ Hp].
-    cbn [id_of snd] in Hh. lia.
-  - (* x is not p: p lies below *)
-    assert (Hx : bheight x <> t).
-    { intros Ex. unfold by_height in Hb. cbn [find] in Hb. replace (bheight x =? t) with true in Hb by lia.
-      inversion Hb; subst. cbn [frontier_id] in E. assert (ident_eqb (id_of p) (id_of p) = true) by (apply ident_eqb_eq; reflexivity). congruence. }
-    assert (Hb' : by_height r t = Some p).
+  induction rc as [|x r IH]; intros mid Hl Hb Hn Hp; [discriminate|].
+  pose proof (linked_height _ Hl) as Hh. cbn [frontier_id id_of snd] in Hh.
+  destruct (Z.eq_dec (bheight x) t) as [Ex|Nx].
+  - assert (Hxp : x = p).
+    { unfold by_height in Hb. cbn [find] in Hb. replace (bheight x =? t) with true in Hb by lia. congruence. }
+    subst x. cbn [pop_until].
+    assert (Hskip : mid && bsend p && (n <? length (p :: r))%nat = false).
+    { destruct Hp as [Hp|Hp]; [rewrite Hp; destruct mid; reflexivity|].
+      replace (n <? length (p :: r))%nat with false; [destruct mid, (bsend p); reflexivity|].
+      symmetry. apply Nat.ltb_ge. lia. }
+    rewrite Hskip.
+    replace (ident_eqb (id_of p) (id_of p)) with true by (symmetry; apply ident_eqb_eq; reflexivity).
+    exists [], (p :: r). repeat split. lia.
+  - assert (Hb' : by_height r t = Some p).
     { unfold by_height in *. cbn [find] in Hb. replace (bheight x =? t) with false in Hb by lia. exact Hb. }
     destruct Hl as [_ [_ Hl']].
-    pose proof (by_height_some _ _ _ Hb') as [Hin Hp].
+    pose proof (by_height_some _ _ _ Hb') as [Hin Hpt].
     pose proof (linked_heights_le _ Hl') as Hf. rewrite Forall_forall in Hf. specialize (Hf p Hin).
-    replace (length (x :: r) <=? n)%nat with false by (cbn [length]; lia).
-    destruct (IH Hl' Hb' Hn) as [pre [r' [E1 [E2 [E3 E4]]]]].
-    exists (x :: pre), r'. repeat split; try assumption. rewrite E1. reflexivity.
+    assert (Hne : ident_eqb (id_of x) (id_of p) = false).
+    { destruct (ident_eqb (id_of x) (id_of p)) eqn:E; [|reflexivity]. apply ident_eqb_eq in E. inversion E. lia. }
+    assert (Hlen : (length (x :: r) <=? n)%nat = false) by (apply Nat.leb_gt; cbn [length]; lia).
+    destruct (IH true Hl' Hb' Hn Hp) as [pre [r' [E1 [E2 [E3 E4]]]]].
+    exists (x :: pre), r'. split; [rewrite E1; reflexivity|]. split; [|split; assumption].
+    cbn [pop_until]. destruct (mid && bsend x && (n <? length (x :: r))%nat); [exact E2|]. rewrite Hne, Hlen. exact E2.
 Qed.
 
 Lemma skipn_suffix {A} (pre r : list A) (n : nat) : (n <= length r)%nat ->
@@ -136,6 +146,28 @@ Proof.
   rewrite skipn_app. rewrite skipn_all2 by lia. cbn [app]. f_equal. lia.
 Qed.
 
+(* ------------------------------------------------------------ transactions *)
+Lemma linked_tx l : forall rc, linked rc -> tx_linked l ->
+  match l with x :: _ => prev_of x = frontier_id rc /\ bheight x = snd (frontier_id rc) + 1 | [] => True end ->
+  linked (rev l ++ rc).
+Proof.
+  induction l as [|x r IH]; intros rc Hl Ht Hx; [exact Hl|].
+  cbn [rev]. rewrite <- app_assoc. cbn [app]. destruct Hx as [Hp Hh]. destruct Ht as [Hy Ht].
+  apply IH; [cbn [linked]; repeat split; assumption|exact Ht|].
+  destruct r as [|y r]; [exact I|]. cbn [frontier_id id_of snd]. exact Hy.
+Qed.
+Lemma tx_first_hd descs b : exists tl, descs ++ [b] = tx_first descs b :: tl.
+Proof. destruct descs as [|d descs]; [exists []|exists (descs ++ [b])]; reflexivity. Qed.
+Lemma tx_chain_rev (descs : list block) (b : block) (rc : list block) : b :: rev descs ++ rc = rev (descs ++ [b]) ++ rc.
+Proof. rewrite rev_app_distr. reflexivity. Qed.
+Lemma tx_linked_app_l x : forall y, tx_linked (x ++ y) -> tx_linked x.
+Proof.
+  induction x as [|a x IH]; intros y H; [exact I|]. cbn [app] in H. destruct H as [H1 H2]. cbn [tx_linked]. split; [|eapply IH; exact H2].
+  destruct x as [|c x]; [exact I|]. exact H1.
+Qed.
+Lemma tx_linked_app_r x : forall y, tx_linked (x ++ y) -> tx_linked y.
+Proof. induction x as [|a x IH]; intros y H; [exact H|]. cbn [app] in H. destruct H as [_ H2]. apply IH. exact H2. Qed.
+
 (* ------------------------------------------------------------ add *)
 Lemma stable_height_is_sh a : wf a -> stable_height a = Z.of_nat (sh a).
 Proof.
@@ -144,55 +176,139 @@ Proof.
   - rewrite skipn_length. lia.
   - rewrite <- (firstn_skipn (length (rchain a) - sh a) (rchain a)) in Hl. apply linked_app in Hl. exact Hl.
 Qed.
-
-Lemma add_spec force a b a' r : wf a -> in_u64 (bheight b) -> Z.of_nat (length (rchain a)) < two63 ->
-  add force a b = (a', r) ->
-  wf a' /\ sh a' = sh a /\ confirmed a' = confirmed a /\ r <> RPanic /\ r <> RErrPop /\
-  (length (rchain a') <= S (length (rchain a)))%nat /\
-  (r = ROk -> frontier_id (rchain a') = id_of b) /\ (r <> ROk -> a' = a).
+Lemma skipn_linked rc n : linked rc -> linked (skipn n rc).
+Proof. intros H. rewrite <- (firstn_skipn n rc) in H. apply linked_app in H. exact H. Qed.
+Lemma confirmed_of_confirmed a : (sh a <= length (rchain a))%nat -> confirmed (mkAcct (confirmed a) (sh a)) = confirmed a.
 Proof.
-  intros Hwf Hu Hlen Hadd. pose proof Hwf as [Hl Hs]. unfold add in Hadd.
+  intros Hs. unfold confirmed. cbn [rchain sh]. rewrite skipn_length.
+  replace (length (rchain a) - (length (rchain a) - sh a) - sh a)%nat with 0%nat by lia. reflexivity.
+Qed.
+
+(* what addAccountBlockTransaction does with a transaction (descs = []: a block without descendants).
+   A failing pop loop (RErrPop) leaves the manager at its stable version: only when the block named as previous is a
+   contract send INSIDE a pooled batch - no version of the account ends there *)
+Lemma add_tx_spec force a descs b a' r : wf a -> wf_tx descs b -> Z.of_nat (length (rchain a)) < two63 ->
+  add_tx force a descs b = (a', r) ->
+  wf a' /\ sh a' = sh a /\ confirmed a' = confirmed a /\ r <> RPanic /\
+  (length (rchain a') <= S (length descs) + length (rchain a))%nat /\
+  (r = ROk -> frontier_id (rchain a') = id_of b) /\ (r <> ROk -> r <> RErrPop -> a' = a) /\
+  (r = RErrPop -> rchain a' = confirmed a /\
+     exists p, by_height (rchain a) (u64 (bheight b - 1)) = Some p /\ id_of p = prev_of (tx_first descs b) /\
+               bsend p = true /\ Z.of_nat (sh a) < bheight p) /\
+  (r = ROk -> exists dropped below, rchain a = dropped ++ below /\ rchain a' = b :: rev descs ++ below /\
+     frontier_id below = prev_of (tx_first descs b) /\ (length dropped <= length (rchain a) - sh a)%nat /\
+     Forall (fun x => bheight (tx_first descs b) <= bheight x) dropped /\ (descs <> [] -> dropped = [])).
+Proof.
+  intros Hwf [Hu [Hu1 Htx]] Hlen Hadd. pose proof Hwf as [Hl Hs]. unfold add_tx in Hadd.
+  set (f := tx_first descs b) in *.
   assert (Hsame : forall r0, r0 <> RPanic -> r0 <> RErrPop -> r0 <> ROk -> (a, r0) = (a', r) ->
-     wf a' /\ sh a' = sh a /\ confirmed a' = confirmed a /\ r <> RPanic /\ r <> RErrPop /\
-     (length (rchain a') <= S (length (rchain a)))%nat /\
-     (r = ROk -> frontier_id (rchain a') = id_of b) /\ (r <> ROk -> a' = a)).
-  { intros r0 N1 N2 N3 E. inversion E; subst. repeat split; auto; try lia. intros; congruence. }
-  destruct (ident_eqb (prev_of b) (frontier_id (rchain a))) eqn:Eff.
+     wf a' /\ sh a' = sh a /\ confirmed a' = confirmed a /\ r <> RPanic /\
+     (length (rchain a') <= S (length descs) + length (rchain a))%nat /\
+     (r = ROk -> frontier_id (rchain a') = id_of b) /\ (r <> ROk -> r <> RErrPop -> a' = a) /\
+     (r = RErrPop -> rchain a' = confirmed a /\
+        exists p, by_height (rchain a) (u64 (bheight b - 1)) = Some p /\ id_of p = prev_of f /\
+                  bsend p = true /\ Z.of_nat (sh a) < bheight p) /\
+     (r = ROk -> exists dropped below, rchain a = dropped ++ below /\ rchain a' = b :: rev descs ++ below /\
+        frontier_id below = prev_of f /\ (length dropped <= length (rchain a) - sh a)%nat /\
+        Forall (fun x => bheight f <= bheight x) dropped /\ (descs <> [] -> dropped = []))).
+  { intros r0 N1 N2 N3 E. inversion E; subst. repeat split; auto; try lia; intros; congruence. }
+  (* installing the transaction on a chain whose frontier is its parent *)
+  assert (Hinst : forall below, linked below -> frontier_id below = prev_of f -> Z.of_nat (length below) < two63 ->
+            linked (b :: rev descs ++ below) /\ bheight f = Z.of_nat (length below) + 1).
+  { intros below Hlb Hfb Hbl.
+    assert (Hh : bheight f = snd (frontier_id below) + 1).
+    { pose proof (linked_height _ Hlb) as Hh. rewrite Hfb in Hh. unfold prev_of in Hh. cbn [snd] in Hh.
+      rewrite Hfb. unfold prev_of. cbn [snd]. unfold in_u64, u64, two63, two64 in *. lia. }
+    split; [|rewrite Hh, (linked_height _ Hlb); reflexivity].
+    rewrite tx_chain_rev. apply linked_tx; [exact Hlb|exact Htx|].
+    destruct (tx_first_hd descs b) as [tl Etl]. rewrite Etl. fold f. split; [symmetry; exact Hfb|exact Hh]. }
+  destruct (ident_eqb (prev_of f) (frontier_id (rchain a))) eqn:Eff.
   - (* fast-forward *)
-    apply ident_eqb_eq in Eff. inversion Hadd; subst. clear Hadd.
-    assert (Hh : bheight b = snd (frontier_id (rchain a)) + 1).
-    { pose proof (linked_height _ Hl) as Hh. rewrite <- Eff in Hh. unfold prev_of in Hh. cbn [snd] in Hh.
-      rewrite <- Eff. unfold prev_of. cbn [snd]. unfold in_u64, u64, two63, two64 in *. lia. }
-    cbn [rchain sh]. split; [|split; [reflexivity|split; [|split; [discriminate|split; [discriminate|split; [cbn [length]; lia|split; [reflexivity|congruence]]]]]]].
-    + split; [|cbn [rchain sh length]; lia]. cbn [rchain linked]. repeat split; assumption.
-    + unfold confirmed. cbn [rchain sh length].
-      replace (S (length (rchain a)) - sh a)%nat with (S (length (rchain a) - sh a)) by lia. reflexivity.
+    apply ident_eqb_eq in Eff. inversion Hadd; subst a' r. clear Hadd.
+    destruct (Hinst (rchain a) Hl (eq_sym Eff) Hlen) as [Hln _].
+    cbn [rchain sh]. split; [|split; [reflexivity|split; [|split; [discriminate|split; [|split; [reflexivity|split; [congruence|split; [discriminate|]]]]]]]].
+    + split; [exact Hln|]. cbn [rchain sh length]. rewrite app_length. lia.
+    + unfold confirmed. cbn [rchain sh]. change (b :: rev descs ++ rchain a) with ((b :: rev descs) ++ rchain a).
+      apply skipn_suffix. exact Hs.
+    + cbn [length]. rewrite app_length, rev_length. lia.
+    + intros _. exists [], (rchain a). cbn [app length]. repeat split; [symmetry; exact Eff|lia|constructor].
   - pose proof (stable_height_is_sh a Hwf) as Hsh.
     destruct (by_height (rchain a) (bheight b)) as [t|] eqn:Et.
     + destruct (ident_eqb (id_of t) (id_of b)); [eapply Hsame; [| | |exact Hadd]; discriminate|].
       destruct (bheight b <=? stable_height a) eqn:Eold; [eapply Hsame; [| | |exact Hadd]; discriminate|].
       destruct (by_height (rchain a) (u64 (bheight b - 1))) as [p|] eqn:Ep; [|eapply Hsame; [| | |exact Hadd]; discriminate].
-      destruct (ident_eqb (id_of p) (prev_of b)) eqn:Epp; cbn [negb] in Hadd; [|eapply Hsame; [| | |exact Hadd]; discriminate].
+      destruct (ident_eqb (id_of p) (prev_of f)) eqn:Epp; cbn [negb] in Hadd; [|eapply Hsame; [| | |exact Hadd]; discriminate].
       apply ident_eqb_eq in Epp.
       destruct (negb force && negb (higher_priority b t =? 0)) eqn:Epr.
       { destruct (higher_priority b t =? 1); (eapply Hsame; [| | |exact Hadd]; discriminate). }
       pose proof (by_height_some _ _ _ Ep) as [Hinp Hhp].
       pose proof (linked_heights_le _ Hl) as Hf. rewrite Forall_forall in Hf. pose proof (Hf p Hinp) as Hpr.
-      assert (Hb1 : bheight b - 1 = bheight p).
-      { unfold in_u64, u64, two63, two64 in *. lia. }
-      destruct (pop_until_spec (rchain a) (sh a) (u64 (bheight b - 1)) p Hl Ep ltac:(lia)) as [pre [r' [E1 [E2 [E3 E4]]]]].
-      rewrite <- Epp, E2 in Hadd. inversion Hadd; subst a' r. clear Hadd.
-      assert (Hl' : linked r') by (rewrite E1 in Hl; apply linked_app in Hl; exact Hl).
-      cbn [rchain sh]. split; [|split; [reflexivity|split; [|split; [discriminate|split; [discriminate|split; [|split; [reflexivity|congruence]]]]]]].
-      * split; [|cbn [rchain sh length]; lia]. cbn [rchain linked]. rewrite E3. repeat split; [exact (eq_sym Epp)|cbn [id_of snd]; lia|exact Hl'].
-      * unfold confirmed. cbn [rchain sh length].
-        replace (S (length r') - sh a)%nat with (S (length r' - sh a)) by lia. cbn [skipn].
-        rewrite E1. symmetry. apply skipn_suffix. lia.
-      * rewrite E1, app_length. cbn [length]. lia.
+      assert (Hb1 : bheight b - 1 = bheight p) by (unfold in_u64, u64, two63, two64 in *; lia).
+      (* the parent of the whole transaction is the block at height(b) - 1: the transaction has no descendants *)
+      assert (Hdescs : descs = []).
+      { destruct descs as [|d ds]; [reflexivity|]. exfalso.
+        assert (Hfp : bheight f - 1 = bheight p).
+        { assert (E2 : snd (id_of p) = snd (prev_of f)) by (rewrite Epp; reflexivity).
+          unfold prev_of in E2. cbn [id_of snd] in E2. unfold in_u64, u64, two63, two64 in *. lia. }
+        (* heights strictly increase along the transaction *)
+        assert (Hinc : forall l x, tx_linked (x :: l ++ [b]) -> bheight x < bheight b).
+        { clear. induction l as [|y l IH]; intros x H.
+          - cbn [app] in H. destruct H as [[_ H] _]. lia.
+          - cbn [app] in H. destruct H as [[_ H1] H2]. specialize (IH y H2). lia. }
+        unfold f in Hfp. cbn [tx_first] in Hfp. cbn [app] in Htx. specialize (Hinc ds d Htx). lia. }
+      subst descs. cbn [tx_first] in f. subst f. cbn [rev app length] in *.
+      destruct (pop_until (rchain a) (sh a) (prev_of b) false) as [rc'|] eqn:Epop.
+      * (* replaced *)
+        assert (Hreach : bsend p = false \/ (Z.to_nat (u64 (bheight b - 1)) <= sh a)%nat -> 
+                exists pre r', rchain a = pre ++ r' /\ Some rc' = Some r' /\ frontier_id r' = id_of p /\ Z.of_nat (length r') = u64 (bheight b - 1)).
+        { intros Hc. destruct (pop_until_reach (rchain a) (sh a) (u64 (bheight b - 1)) p false Hl Ep ltac:(lia) Hc) as [pre [r' [E1 [E2 [E3 E4]]]]].
+          exists pre, r'. rewrite <- Epop, <- Epp. repeat split; assumption. }
+        (* whatever p is, a successful loop ends on a suffix whose frontier is the target *)
+        assert (Hsuf : forall rc n mid r1, linked rc -> pop_until rc n (prev_of b) mid = Some r1 ->
+                  exists pre, rc = pre ++ r1 /\ (frontier_id r1 = prev_of b) /\ (n <= length r1 \/ r1 = rc)%nat).
+        { clear - Hu Hb1 Hpr. induction rc as [|x r0 IH]; intros n mid r1 Hl0 H.
+          - cbn [pop_until] in H. destruct (ident_eqb (0, 0) (prev_of b)) eqn:E; [|discriminate]. inversion H; subst.
+            exists []. apply ident_eqb_eq in E. repeat split; [cbn [frontier_id]; exact E|right; reflexivity].
+          - cbn [pop_until] in H. destruct Hl0 as [_ [_ Hl1]].
+            destruct (mid && bsend x && (n <? length (x :: r0))%nat) eqn:E0.
+            + destruct (IH n true r1 Hl1 H) as [pre [E1 [E2 E3]]]. exists (x :: pre). split; [rewrite E1; reflexivity|]. split; [exact E2|].
+              left. destruct E3 as [E3|E3]; [exact E3|]. subst r1. apply andb_prop in E0. destruct E0 as [_ E0]. apply Nat.ltb_lt in E0. cbn [length] in E0. lia.
+            + destruct (ident_eqb (id_of x) (prev_of b)) eqn:E1.
+              * inversion H; subst. exists []. apply ident_eqb_eq in E1. repeat split; [exact E1|right; reflexivity].
+              * destruct (length (x :: r0) <=? n)%nat eqn:E2; [discriminate|].
+                destruct (IH n true r1 Hl1 H) as [pre [E3 [E4 E5]]]. exists (x :: pre). split; [rewrite E3; reflexivity|]. split; [exact E4|].
+                left. destruct E5 as [E5|E5]; [exact E5|]. subst r1. apply Nat.leb_gt in E2. cbn [length] in E2. lia. }
+        destruct (Hsuf (rchain a) (sh a) false rc' Hl Epop) as [pre [E1 [E3 E5]]].
+        inversion Hadd; subst a' r. clear Hadd.
+        assert (Hl' : linked rc') by (rewrite E1 in Hl; apply linked_app in Hl; exact Hl).
+        assert (Hlr : Z.of_nat (length rc') < two63) by (rewrite E1, app_length in Hlen; lia).
+        destruct (Hinst rc' Hl' E3 Hlr) as [Hln Hhf]. cbn [rev app tx_first] in Hln, Hhf.
+        assert (Hlen' : Z.of_nat (length rc') = bheight p) by lia.
+        assert (Hge : (sh a <= length rc')%nat) by lia.
+        cbn [rchain sh]. split; [|split; [reflexivity|split; [|split; [discriminate|split; [|split; [reflexivity|split; [congruence|split; [discriminate|]]]]]]]].
+        -- split; [exact Hln|cbn [rchain sh length]; lia].
+        -- unfold confirmed. cbn [rchain sh length].
+           replace (S (length rc') - sh a)%nat with (S (length rc' - sh a)) by lia. cbn [skipn].
+           rewrite E1. symmetry. apply skipn_suffix. lia.
+        -- rewrite E1, app_length. cbn [length]. lia.
+        -- intros _. exists pre, rc'. split; [exact E1|]. split; [reflexivity|]. split; [exact E3|]. split; [rewrite E1, app_length; lia|]. split; [|congruence].
+           rewrite E1 in Hl. eapply Forall_impl; [|apply linked_heights_gt with (y := rc'); exact Hl]. cbn. intros x Hx. lia.
+      * (* the loop ran into the stable version: p is a send inside a pooled batch *)
+        inversion Hadd; subst a' r. clear Hadd. cbn [rchain sh].
+        split; [split; [cbn [rchain]; unfold confirmed; apply skipn_linked; exact Hl|cbn [rchain sh]; unfold confirmed; rewrite skipn_length; lia]|].
+        split; [reflexivity|]. split; [apply confirmed_of_confirmed; exact Hs|]. split; [discriminate|].
+        split; [unfold confirmed; rewrite skipn_length; lia|]. split; [discriminate|]. split; [congruence|]. split; [|discriminate].
+        intros _. split; [reflexivity|]. exists p. split; [reflexivity|]. split; [exact Epp|].
+        destruct (bsend p) eqn:Esp.
+        -- split; [reflexivity|]. destruct (Z_lt_le_dec (Z.of_nat (sh a)) (bheight p)) as [Hgt|Hle]; [exact Hgt|]. exfalso.
+           destruct (pop_until_reach (rchain a) (sh a) (u64 (bheight b - 1)) p false Hl Ep ltac:(lia) ltac:(right; lia)) as [pre [r' [_ [E2 _]]]].
+           rewrite <- Epp in Epop. congruence.
+        -- exfalso. destruct (pop_until_reach (rchain a) (sh a) (u64 (bheight b - 1)) p false Hl Ep ltac:(lia) ltac:(left; exact Esp)) as [pre [r' [_ [E2 _]]]].
+           rewrite <- Epp in Epop. congruence.
     + destruct (bheight b <=? stable_height a) eqn:Eold; [eapply Hsame; [| | |exact Hadd]; discriminate|].
       destruct (by_height (rchain a) (u64 (bheight b - 1))) as [p|] eqn:Ep; [|eapply Hsame; [| | |exact Hadd]; discriminate].
-      destruct (ident_eqb (id_of p) (prev_of b)) eqn:Epp; cbn [negb] in Hadd; [|eapply Hsame; [| | |exact Hadd]; discriminate].
-      (* unreachable: the previous block exists, so either b extends the frontier (fast-forward) or a block at its height exists *)
+      destruct (ident_eqb (id_of p) (prev_of f)) eqn:Epp; cbn [negb] in Hadd; [|eapply Hsame; [| | |exact Hadd]; discriminate].
+      (* unreachable: the previous block exists, so either the transaction extends the frontier (fast-forward) or a block at its height exists *)
       exfalso. apply ident_eqb_eq in Epp.
       pose proof (by_height_some _ _ _ Ep) as [Hinp Hhp].
       pose proof (linked_heights_le _ Hl) as Hf. rewrite Forall_forall in Hf. pose proof (Hf p Hinp) as Hpr.
@@ -205,11 +321,41 @@ Proof.
           destruct Hinp as [->|Hin]; [reflexivity|].
           destruct Hl as [_ [_ Hl']]. pose proof (linked_heights_le _ Hl') as Hf'. rewrite Forall_forall in Hf'. specialize (Hf' p Hin).
           cbn [length] in *. lia. }
-        assert (ident_eqb (prev_of b) (frontier_id (rchain a)) = true) by (apply ident_eqb_eq; congruence). congruence.
-      * (* a block with b's height exists *)
-        destruct (linked_has_height (rchain a) (bheight b) Hl ltac:(lia)) as [t [Hint Ht]].
+        assert (ident_eqb (prev_of f) (frontier_id (rchain a)) = true) by (apply ident_eqb_eq; congruence). congruence.
+      * destruct (linked_has_height (rchain a) (bheight b) Hl ltac:(lia)) as [t [Hint Ht]].
         unfold by_height in Et.
         pose proof (find_none _ _ Et t Hint) as Hn. cbn in Hn. lia.
+Qed.
+
+Lemma wf_tx_single b : in_u64 (bheight b) -> wf_tx [] b.
+Proof. intros H. unfold wf_tx. cbn [tx_first app tx_linked]. auto. Qed.
+
+(* a block without descendants *)
+Lemma add_spec force a b a' r : wf a -> in_u64 (bheight b) -> Z.of_nat (length (rchain a)) < two63 ->
+  add force a b = (a', r) ->
+  wf a' /\ sh a' = sh a /\ confirmed a' = confirmed a /\ r <> RPanic /\
+  (length (rchain a') <= S (length (rchain a)))%nat /\
+  (r = ROk -> frontier_id (rchain a') = id_of b) /\ (r <> ROk -> r <> RErrPop -> a' = a) /\
+  (r = RErrPop -> rchain a' = confirmed a /\
+     exists p, by_height (rchain a) (u64 (bheight b - 1)) = Some p /\ id_of p = prev_of b /\ bsend p = true /\ Z.of_nat (sh a) < bheight p).
+Proof.
+  intros Hwf Hu Hlen Hadd. unfold add in Hadd.
+  destruct (add_tx_spec force a [] b a' r Hwf (wf_tx_single b Hu) Hlen Hadd) as [H1 [H2 [H3 [H4 [H5 [H6 [H7 [H8 _]]]]]]]].
+  cbn [length tx_first] in *. split; [exact H1|]. split; [exact H2|]. split; [exact H3|]. split; [exact H4|]. split; [lia|]. split; [exact H6|]. split; [exact H7|exact H8].
+Qed.
+
+(* the pooled chain has no contract send for a block to name as its parent: user accounts, and contracts whose receives
+   carry no descendants *)
+Definition no_sends (a : acct) : Prop := Forall (fun x => bsend x = false) (rchain a).
+Lemma add_no_sends force a b a' r : wf a -> in_u64 (bheight b) -> Z.of_nat (length (rchain a)) < two63 -> no_sends a ->
+  add force a b = (a', r) -> r <> RErrPop /\ (r <> ROk -> a' = a).
+Proof.
+  intros Hwf Hu Hlen Hns Hadd.
+  destruct (add_spec force a b a' r Hwf Hu Hlen Hadd) as [_ [_ [_ [_ [_ [_ [H7 H8]]]]]]].
+  assert (N : r <> RErrPop).
+  { intros E. destruct (H8 E) as [_ [p [Hp [_ [Hs _]]]]]. apply by_height_some in Hp. destruct Hp as [Hin _].
+    unfold no_sends in Hns. rewrite Forall_forall in Hns. rewrite (Hns p Hin) in Hs. discriminate. }
+  split; [exact N|]. intros Hr. apply H7; assumption.
 Qed.
 
 (* ------------------------------------------------------------ rebuild *)
@@ -324,9 +470,6 @@ Proof.
       replace (p - k - Init.Nat.min p (length (rchain a)))%nat with 0%nat by lia. reflexivity.
 Qed.
 
-Lemma skipn_linked rc n : linked rc -> linked (skipn n rc).
-Proof. intros H. rewrite <- (firstn_skipn n rc) in H. apply linked_app in H. exact H. Qed.
-
 (* whatever the momentum confirmed (also a part of a batch: the rebuild then fails and the account's pool is dropped):
    the account after it is the new confirmed chain with a part of the old pool on top *)
 Lemma momentum_shape a k : wf a -> (sh a + k <= length (rchain a))%nat ->
@@ -356,35 +499,194 @@ Proof.
     + left. reflexivity.
 Qed.
 
-(* ------------------------------------------------------------ every operation keeps the invariant *)
-(* the rebuild after a momentum fails only when the momentum confirmed a part of a batch (the account's pool is dropped) *)
-Lemma step_wf a o : wf a -> wf_op o -> Z.of_nat (length (rchain a)) < two63 ->
-  wf (fst (step a o)) /\ (length (rchain (fst (step a o))) <= S (length (rchain a)))%nat /\
-  snd (step a o) <> RPanic /\ (snd (step a o) = RErrPop -> exists k, o = OMomentum k /\ ~ aligned a k).
+(* ------------------------------------------------------------ a momentum that confirms other blocks than the pooled ones *)
+Lemma links_on_linked l : forall rc, linked rc -> links_on (frontier_id rc) l = true -> linked (rev l ++ rc).
 Proof.
-  intros Hwf Ho Hlen. destruct o as [force b|k|j].
+  induction l as [|x r IH]; intros rc Hl H; [exact Hl|].
+  cbn [links_on] in H. apply andb_prop in H. destruct H as [H H3]. apply andb_prop in H. destruct H as [H1 H2].
+  apply ident_eqb_eq in H1. apply Z.eqb_eq in H2.
+  cbn [rev]. rewrite <- app_assoc. cbn [app]. apply IH; [cbn [linked]; repeat split; assumption|exact H3].
+Qed.
+
+(* the same blocks on another chain with the same frontier *)
+Lemma linked_swap pre : forall low ns, linked (pre ++ low) -> frontier_id low = frontier_id ns -> linked ns -> linked (pre ++ ns).
+Proof.
+  induction pre as [|x pre IH]; intros low ns H Hf Hns; [exact Hns|].
+  cbn [app linked] in *. destruct H as [H1 [H2 H3]].
+  assert (E : frontier_id (pre ++ low) = frontier_id (pre ++ ns)) by (destruct pre; [exact Hf|reflexivity]).
+  rewrite <- E. repeat split; try assumption. eapply IH; eassumption.
+Qed.
+
+(* the blocks of a linked chain above a height: its top part *)
+Lemma uncommitted_split rc (h : nat) : linked rc ->
+  exists pre low, rc = pre ++ low /\ filter (fun b => Z.of_nat h <? bheight b) (rev rc) = rev pre /\
+                  (pre = [] \/ length low = h) /\ (length low <= h)%nat.
+Proof.
+  intros Hl. set (m := (length rc - h)%nat).
+  exists (firstn m rc), (skipn m rc). pose proof (firstn_skipn m rc) as Hsplit.
+  split; [symmetry; exact Hsplit|].
+  assert (Hlow : (length (skipn m rc) <= h)%nat) by (rewrite skipn_length; lia).
+  split; [|split; [|exact Hlow]].
+  - rewrite <- Hsplit at 1. rewrite rev_app_distr, filter_app.
+    rewrite (filter_none _ (rev (skipn m rc))).
+    2:{ apply Forall_rev. eapply Forall_impl; [|apply linked_heights_le; apply skipn_linked; exact Hl]. cbn. intros x Hx. lia. }
+    cbn [app]. apply filter_all. apply Forall_rev.
+    destruct (Nat.eq_dec m 0) as [E|N]; [rewrite E; constructor|].
+    eapply Forall_impl; [|apply linked_heights_gt with (y := skipn m rc); rewrite Hsplit; exact Hl].
+    cbn. intros x Hx. rewrite skipn_length in Hx. lia.
+  - destruct (Nat.eq_dec m 0) as [E|N]; [left; rewrite E; reflexivity|right; rewrite skipn_length; lia].
+Qed.
+
+(* the first transaction does not sit on the frontier: nothing is re-added *)
+Lemma readd_unlinked l : forall s pend x0, pend <> [] -> (forall d, last pend d = x0) -> prev_of x0 <> frontier_id s ->
+  readd s pend l = None \/ readd s pend l = Some s.
+Proof.
+  induction l as [|b r IH]; intros s pend x0 Hne Hlast Hx; [right; reflexivity|].
+  cbn [readd]. destruct (bsend b).
+  - apply (IH s (b :: pend) x0); [discriminate| |exact Hx].
+    intros d. destruct pend as [|y pend]; [congruence|]. change (last (b :: y :: pend) d) with (last (y :: pend) d). apply Hlast.
+  - rewrite (Hlast b). destruct (ident_eqb (prev_of x0) (frontier_id s)) eqn:E; [apply ident_eqb_eq in E; congruence|]. left. reflexivity.
+Qed.
+Lemma readd_unlinked0 l s x0 r : l = x0 :: r -> prev_of x0 <> frontier_id s -> readd s [] l = None \/ readd s [] l = Some s.
+Proof.
+  intros -> Hx. cbn [readd]. destruct (bsend x0).
+  - apply (readd_unlinked r s [x0] x0); [discriminate|reflexivity|exact Hx].
+  - cbn [last]. destruct (ident_eqb (prev_of x0) (frontier_id s)) eqn:E; [apply ident_eqb_eq in E; congruence|]. left. reflexivity.
+Qed.
+
+Lemma rebuild_gen pre low ns n : linked (pre ++ low) -> linked ns -> (length low <= length ns)%nat -> (pre = [] \/ length low = length ns) ->
+  rebuild ns (mkAcct (pre ++ low) n) =
+  if negb (top_closed ns) && existsb (fun b => negb (bsend b)) (rev pre) then None
+  else match readd ns [] (rev pre) with Some rc => Some (mkAcct rc (length ns)) | None => None end.
+Proof.
+  intros Hl Hns Hle Hc. unfold rebuild. cbn [rchain].
+  rewrite (linked_height _ Hns).
+  rewrite rev_app_distr, filter_app.
+  rewrite (filter_none _ (rev low)).
+  2:{ apply Forall_rev. eapply Forall_impl; [|apply linked_heights_le; apply (linked_app pre); exact Hl]. cbn. intros x Hx. lia. }
+  rewrite (filter_all _ (rev pre)).
+  2:{ apply Forall_rev. destruct Hc as [->|Hc]; [constructor|].
+      eapply Forall_impl; [|apply linked_heights_gt with (y := low); exact Hl]. cbn. intros x Hx. lia. }
+  cbn [app]. reflexivity.
+Qed.
+
+Lemma snoc_case {A} (l : list A) : l = [] \/ exists l' x, l = l' ++ [x].
+Proof. induction l as [|x l _] using rev_ind; [left; reflexivity|right; eauto]. Qed.
+
+(* OConfirm: the momentum confirms `newly` (they continue the confirmed chain), whatever the pool holds *)
+Lemma confirm_spec a newly : wf a -> links_on (frontier_id (confirmed a)) newly = true ->
+  let a' := fst (step a (OConfirm newly)) in
+  let ns := rev newly ++ confirmed a in
+  wf a' /\ snd (step a (OConfirm newly)) = ROk /\ sh a' = length ns /\
+  (exists top, rchain a' = top ++ ns /\ (length top <= length (rchain a) - sh a)%nat /\
+     forall x, In x top -> In x (pooled a) /\ Z.of_nat (length ns) < bheight x) /\
+  (* the previously pooled block right above the new frontier is not its child: nothing stays pooled *)
+  (forall x0, by_height (rchain a) (Z.of_nat (length ns) + 1) = Some x0 -> prev_of x0 <> frontier_id ns -> rchain a' = ns).
+Proof.
+  intros Hwf Hlk. cbv zeta. pose proof Hwf as [Hl Hs].
+  set (ns := rev newly ++ confirmed a).
+  assert (Hlc : linked (confirmed a)) by (unfold confirmed; apply skipn_linked; exact Hl).
+  assert (Hns : linked ns) by (apply links_on_linked; assumption).
+  assert (Hnl : length ns = (length newly + sh a)%nat).
+  { unfold ns. rewrite app_length, rev_length. unfold confirmed. rewrite skipn_length. lia. }
+  cbn [step]. rewrite Hlk. fold ns.
+  destruct (uncommitted_split (rchain a) (length ns) Hl) as [pre [low [E1 [_ [E3 E4]]]]].
+  assert (Hpool : forall x, In x pre -> In x (pooled a) /\ Z.of_nat (length ns) < bheight x).
+  { intros x Hx. destruct E3 as [->|E3]; [contradiction|]. split.
+    - unfold pooled. rewrite E1. rewrite firstn_app.
+      apply in_or_app. left. rewrite firstn_all2; [exact Hx|]. rewrite app_length. lia.
+    - rewrite E1 in Hl. pose proof (linked_heights_gt _ _ Hl) as Hf. rewrite Forall_forall in Hf. specialize (Hf x Hx). lia. }
+  assert (Hlenpre : (length pre <= length (rchain a) - sh a)%nat).
+  { destruct E3 as [->|E3]; [cbn [length]; lia|]. rewrite E1, app_length. lia. }
+  assert (Erb : rebuild ns a = rebuild ns (mkAcct (pre ++ low) (sh a))) by (rewrite <- E1; destruct a; reflexivity).
+  rewrite Erb, (rebuild_gen pre low ns (sh a)) by (try rewrite <- E1; assumption).
+  assert (Hempty : wf (mkAcct ns (length ns)) /\ ROk = ROk /\ length ns = length ns /\
+            (exists top, ns = top ++ ns /\ (length top <= length (rchain a) - sh a)%nat /\ forall x, In x top -> In x (pooled a) /\ Z.of_nat (length ns) < bheight x) /\
+            (forall x0, by_height (rchain a) (Z.of_nat (length ns) + 1) = Some x0 -> prev_of x0 <> frontier_id ns -> ns = ns)).
+  { split; [split; [exact Hns|cbn [rchain sh]; lia]|]. split; [reflexivity|]. split; [reflexivity|]. split; [|reflexivity].
+    exists []. split; [reflexivity|]. split; [cbn [length]; lia|]. intros x []. }
+  destruct (negb (top_closed ns) && existsb (fun b => negb (bsend b)) (rev pre)); [cbn [fst snd rchain sh]; exact Hempty|].
+  (* does the lowest of the old blocks above the new frontier sit on it? *)
+  destruct (snoc_case pre) as [->|[pre' [x0 ->]]]; [cbn [rev readd fst snd rchain sh]; exact Hempty|].
+  assert (Hx0h : bheight x0 = Z.of_nat (length ns) + 1 /\ prev_of x0 = frontier_id low).
+  { rewrite E1, <- app_assoc in Hl. apply linked_app in Hl. cbn [app] in Hl. destruct Hl as [H1 [H2 H3]].
+    split; [|exact H1]. rewrite H2, (linked_height _ H3). destruct E3 as [E3|E3]; [destruct pre'; discriminate|lia]. }
+  assert (Hby : by_height (rchain a) (Z.of_nat (length ns) + 1) = Some x0).
+  { rewrite E1, <- app_assoc. unfold by_height. cbn [app].
+    assert (Hgt : Forall (fun b => Z.of_nat (length (x0 :: low)) < bheight b) pre').
+    { apply linked_heights_gt. rewrite E1, <- app_assoc in Hl. exact Hl. }
+    assert (Elow : length low = length ns) by (destruct E3 as [E3|E3]; [destruct pre'; discriminate|exact E3]).
+    clear - Hgt Hx0h Elow. destruct Hx0h as [Hx0h _]. induction pre' as [|y q IH]; cbn [app find].
+    - replace (bheight x0 =? Z.of_nat (length ns) + 1) with true by lia. reflexivity.
+    - inversion Hgt; subst. cbn [length] in H1.
+      replace (bheight y =? Z.of_nat (length ns) + 1) with false by lia. apply IH; assumption. }
+  destruct (ident_eqb (prev_of x0) (frontier_id ns)) eqn:Elink.
+  - (* it does: the old blocks are re-added transaction by transaction *)
+    apply ident_eqb_eq in Elink. destruct Hx0h as [_ Hx0p].
+    assert (Hsw : linked ((pre' ++ [x0]) ++ ns)).
+    { apply (linked_swap _ low); [rewrite <- E1; exact Hl|congruence|exact Hns]. }
+    rewrite (readd_spec (rev (pre' ++ [x0])) [] ns); [|rewrite rev_involutive; cbn [app]; exact Hsw|constructor].
+    rewrite rev_involutive, app_nil_r. cbn [fst snd rchain sh].
+    destruct (strip_suffix (pre' ++ [x0])) as [d Ed].
+    split; [split; [rewrite Ed, <- app_assoc in Hsw; apply linked_app in Hsw; exact Hsw|cbn [rchain sh]; rewrite app_length; lia]|].
+    split; [reflexivity|]. split; [reflexivity|]. split.
+    + exists (strip (pre' ++ [x0])). split; [reflexivity|]. split.
+      * pose proof (strip_length (pre' ++ [x0])). lia.
+      * intros x Hx. apply Hpool. rewrite Ed. apply in_or_app. right. exact Hx.
+    + intros y Hy Hny. rewrite Hby in Hy. inversion Hy; subst y. congruence.
+  - (* it does not *)
+    assert (Hnl2 : prev_of x0 <> frontier_id ns) by (intros E; apply ident_eqb_eq in E; congruence).
+    rewrite rev_app_distr. cbn [rev app].
+    destruct (readd_unlinked0 (x0 :: rev pre') ns x0 (rev pre') eq_refl Hnl2) as [E|E]; rewrite E; cbn [fst snd rchain sh]; exact Hempty.
+Qed.
+
+(* ------------------------------------------------------------ every operation keeps the invariant *)
+Definition op_size (o : op) : nat :=
+  match o with OAddTx _ descs _ => S (length descs) | OConfirm newly => length newly | _ => 1 end.
+Fixpoint ops_size (ops : list op) : nat := match ops with [] => 0 | o :: r => op_size o + ops_size r end.
+
+(* the rebuild after a momentum fails only when the momentum confirmed a part of a batch (the account's pool is dropped);
+   the pop loop fails only for a candidate whose parent is a contract send inside a pooled batch *)
+Lemma step_wf a o : wf a -> wf_op o -> Z.of_nat (length (rchain a)) < two63 ->
+  wf (fst (step a o)) /\ (length (rchain (fst (step a o))) <= op_size o + length (rchain a))%nat /\
+  snd (step a o) <> RPanic /\
+  (snd (step a o) = RErrPop -> (exists k, o = OMomentum k /\ ~ aligned a k) \/
+     (exists force descs b p, step a o = add_tx force a descs b /\ by_height (rchain a) (u64 (bheight b - 1)) = Some p /\
+                              bsend p = true /\ Z.of_nat (sh a) < bheight p)).
+Proof.
+  intros Hwf Ho Hlen. destruct o as [force b|k|j|force descs b|newly].
   - cbn [step]. destruct (add force a b) as [a' r] eqn:E.
-    destruct (add_spec force a b a' r Hwf Ho Hlen E) as [H1 [_ [_ [H4 [H5 [H6 _]]]]]]. cbn [fst snd].
-    split; [exact H1|]. split; [exact H6|]. split; [exact H4|]. intros Hr. exfalso. exact (H5 Hr).
+    destruct (add_spec force a b a' r Hwf Ho Hlen E) as [H1 [_ [_ [H4 [H6 [_ [_ H8]]]]]]]. cbn [fst snd op_size].
+    split; [exact H1|]. split; [lia|]. split; [exact H4|]. intros Hr. right.
+    destruct (H8 Hr) as [_ [p [P1 [_ [P3 P4]]]]]. exists force, [], b, p. split; [symmetry; exact E|repeat split; assumption].
   - destruct (Nat.ltb_spec (length (rchain a)) (sh a + k)) as [Hlt|Hge].
-    + cbn [step]. replace (length (rchain a) <? sh a + k)%nat with true by lia. cbn [fst snd]. repeat split; try discriminate; try lia; apply Hwf.
-    + destruct (momentum_shape a k Hwf Hge) as [x [E [L [Hle [Hn Hr]]]]]. rewrite E. cbn [rchain sh].
+    + cbn [step]. replace (length (rchain a) <? sh a + k)%nat with true by lia. cbn [fst snd op_size]. repeat split; try discriminate; try lia; apply Hwf.
+    + destruct (momentum_shape a k Hwf Hge) as [x [E [L [Hle [Hn Hr]]]]]. rewrite E. cbn [rchain sh op_size].
       split; [split; [exact L|cbn [rchain sh]; rewrite app_length; lia]|]. split; [lia|].
       destruct Hr as [Hr|[Hr Hc]]; rewrite Hr; split; try discriminate.
-      intros _. exists k. split; [reflexivity|]. intros [_ A2]. congruence.
-  - cbn [step]. destruct (sh a <? j)%nat eqn:E; cbn [fst snd rchain sh].
+      intros _. left. exists k. split; [reflexivity|]. intros [_ A2]. congruence.
+  - cbn [step]. destruct (sh a <? j)%nat eqn:E; cbn [fst snd rchain sh op_size].
     + repeat split; try discriminate; try lia; apply Hwf.
     + destruct Hwf as [Hl Hs].
       split; [split; [apply skipn_linked; exact Hl|cbn [rchain sh]; rewrite skipn_length; lia]|].
       split; [rewrite skipn_length; lia|split; discriminate].
+  - cbn [step]. destruct (add_tx force a descs b) as [a' r] eqn:E.
+    destruct (add_tx_spec force a descs b a' r Hwf Ho Hlen E) as [H1 [_ [_ [H4 [H6 [_ [_ [H8 _]]]]]]]]. cbn [fst snd op_size].
+    split; [exact H1|]. split; [lia|]. split; [exact H4|]. intros Hr. right.
+    destruct (H8 Hr) as [_ [p [P1 [_ [P3 P4]]]]]. exists force, descs, b, p. split; [symmetry; exact E|repeat split; assumption].
+  - destruct (links_on (frontier_id (confirmed a)) newly) eqn:Elk.
+    + destruct (confirm_spec a newly Hwf Elk) as [H1 [H2 [_ [[top [H3 [H4 _]]] _]]]].
+      split; [exact H1|]. split; [|split; [rewrite H2; discriminate|rewrite H2; discriminate]].
+      rewrite H3. rewrite !app_length, rev_length. cbn [op_size]. destruct Hwf as [_ Hs]. unfold confirmed. rewrite skipn_length. lia.
+    + cbn [step]. rewrite Elk. cbn [fst snd op_size]. repeat split; try discriminate; try lia; apply Hwf.
 Qed.
 
-Lemma run_wf ops : forall a, wf a -> Forall wf_op ops -> Z.of_nat (length (rchain a) + length ops) < two63 -> wf (run a ops).
+Lemma run_wf ops : forall a, wf a -> Forall wf_op ops -> Z.of_nat (length (rchain a) + ops_size ops) < two63 -> wf (run a ops).
 Proof.
   induction ops as [|o ops IH]; intros a Hwf Hops Hlen; [exact Hwf|].
-  cbn [run]. inversion Hops; subst.
-  destruct (step_wf a o Hwf H1 ltac:(cbn [length] in Hlen; lia)) as [Hw [Hl _]].
-  apply IH; [exact Hw|assumption|cbn [length] in Hlen; lia].
+  cbn [run]. inversion Hops; subst. cbn [ops_size] in Hlen.
+  destruct (step_wf a o Hwf H1 ltac:(lia)) as [Hw [Hl _]].
+  apply IH; [exact Hw|assumption|lia].
 Qed.
 
 Lemma skipn_add {A} (l : list A) m n : skipn n (skipn m l) = skipn (m + n) l.
@@ -396,12 +698,12 @@ Qed.
 (* a confirmed block is never displaced by a pool operation *)
 Lemma confirmed_never_displaced a o : wf a -> wf_op o -> Z.of_nat (length (rchain a)) < two63 ->
   match o with
-  | OAdd _ _ => confirmed (fst (step a o)) = confirmed a
-  | OMomentum _ => exists newly, confirmed (fst (step a o)) = newly ++ confirmed a
+  | OAdd _ _ | OAddTx _ _ _ => confirmed (fst (step a o)) = confirmed a
+  | OMomentum _ | OConfirm _ => exists newly, confirmed (fst (step a o)) = newly ++ confirmed a
   | ODelete _ => exists dropped, confirmed a = dropped ++ confirmed (fst (step a o))
   end.
 Proof.
-  intros Hwf Ho Hlen. destruct o as [force b|k|j].
+  intros Hwf Ho Hlen. destruct o as [force b|k|j|force descs b|newly].
   - cbn [step]. destruct (add force a b) as [a' r] eqn:E.
     destruct (add_spec force a b a' r Hwf Ho Hlen E) as [_ [_ [H3 _]]]. exact H3.
   - destruct (Nat.ltb_spec (length (rchain a)) (sh a + k)) as [Hlt|Hge].
@@ -421,6 +723,14 @@ Proof.
       exists (firstn (sh a - j) (skipn (length (rchain a) - sh a) (rchain a))).
       rewrite <- (firstn_skipn (sh a - j) (skipn (length (rchain a) - sh a) (rchain a))) at 1.
       f_equal. rewrite skipn_add. f_equal. lia.
+  - cbn [step]. destruct (add_tx force a descs b) as [a' r] eqn:E.
+    destruct (add_tx_spec force a descs b a' r Hwf Ho Hlen E) as [_ [_ [H3 _]]]. exact H3.
+  - destruct (links_on (frontier_id (confirmed a)) newly) eqn:Elk.
+    + destruct (confirm_spec a newly Hwf Elk) as [_ [_ [H2 [[top [H3 _]] _]]]].
+      exists (rev newly). unfold confirmed at 1. rewrite H3, H2.
+      rewrite app_length. replace (length top + length (rev newly ++ confirmed a) - length (rev newly ++ confirmed a))%nat with (length top) by lia.
+      rewrite skipn_app, skipn_all, Nat.sub_diag. reflexivity.
+    + cbn [step]. rewrite Elk. exists []. reflexivity.
 Qed.
 
 (* ------------------------------------------------------------ momentum content *)
@@ -568,30 +878,20 @@ Lemma add_replaces_suffix force a b a' : wf a -> in_u64 (bheight b) -> Z.of_nat 
   exists dropped below, rchain a = dropped ++ below /\ rchain a' = b :: below /\ frontier_id below = prev_of b /\
     (length dropped <= length (rchain a) - sh a)%nat /\ Forall (fun x => bheight b <= bheight x) dropped.
 Proof.
-  intros Hwf Hu Hlen Hadd. pose proof Hwf as [Hl Hs]. unfold add in Hadd.
-  destruct (ident_eqb (prev_of b) (frontier_id (rchain a))) eqn:Eff.
-  - apply ident_eqb_eq in Eff. inversion Hadd; subst. exists [], (rchain a). cbn [app rchain length].
-    repeat split; [symmetry; exact Eff|lia|constructor].
-  - pose proof (stable_height_is_sh a Hwf) as Hsh.
-    destruct (by_height (rchain a) (bheight b)) as [t|] eqn:Et.
-    + destruct (ident_eqb (id_of t) (id_of b)); [discriminate|].
-      destruct (bheight b <=? stable_height a) eqn:Eold; [discriminate|].
-      destruct (by_height (rchain a) (u64 (bheight b - 1))) as [p|] eqn:Ep; [|discriminate].
-      destruct (ident_eqb (id_of p) (prev_of b)) eqn:Epp; cbn [negb] in Hadd; [|discriminate].
-      apply ident_eqb_eq in Epp.
-      destruct (negb force && negb (higher_priority b t =? 0)) eqn:Epr.
-      { destruct (higher_priority b t =? 1); discriminate. }
-      pose proof (by_height_some _ _ _ Ep) as [Hinp Hhp].
-      pose proof (linked_heights_le _ Hl) as Hf. rewrite Forall_forall in Hf. pose proof (Hf p Hinp) as Hpr.
-      assert (Hb1 : bheight b - 1 = bheight p) by (unfold in_u64, u64, two63, two64 in *; lia).
-      destruct (pop_until_spec (rchain a) (sh a) (u64 (bheight b - 1)) p Hl Ep ltac:(lia)) as [pre [r' [E1 [E2 [E3 E4]]]]].
-      rewrite <- Epp, E2 in Hadd. inversion Hadd; subst a'. clear Hadd.
-      exists pre, r'. cbn [rchain]. split; [exact E1|]. split; [reflexivity|]. split; [rewrite E3; exact Epp|]. split.
-      * rewrite E1, app_length. lia.
-      * rewrite E1 in Hl. eapply Forall_impl; [|apply linked_heights_gt with (y := r'); exact Hl]. cbn. intros x Hx. lia.
-    + destruct (bheight b <=? stable_height a); [discriminate|].
-      destruct (by_height (rchain a) (u64 (bheight b - 1))) as [p|]; [|discriminate].
-      destruct (negb (ident_eqb (id_of p) (prev_of b))); discriminate.
+  intros Hwf Hu Hlen Hadd. unfold add in Hadd.
+  destruct (add_tx_spec force a [] b a' ROk Hwf (wf_tx_single b Hu) Hlen Hadd) as [_ [_ [_ [_ [_ [_ [_ [_ H9]]]]]]]].
+  destruct (H9 eq_refl) as [dropped [below [E1 [E2 [E3 [E4 [E5 _]]]]]]]. exists dropped, below. cbn [rev app tx_first] in *. repeat split; assumption.
+Qed.
+
+(* a transaction with descendants: installed on the untouched chain below its first height; and only ever by fast-forward *)
+Lemma add_tx_replaces_suffix force a descs b a' : wf a -> wf_tx descs b -> Z.of_nat (length (rchain a)) < two63 ->
+  add_tx force a descs b = (a', ROk) ->
+  exists dropped below, rchain a = dropped ++ below /\ rchain a' = b :: rev descs ++ below /\
+    frontier_id below = prev_of (tx_first descs b) /\ (length dropped <= length (rchain a) - sh a)%nat /\
+    Forall (fun x => bheight (tx_first descs b) <= bheight x) dropped /\ (descs <> [] -> dropped = []).
+Proof.
+  intros Hwf Ht Hlen Hadd.
+  destruct (add_tx_spec force a descs b a' ROk Hwf Ht Hlen Hadd) as [_ [_ [_ [_ [_ [_ [_ [_ H9]]]]]]]]. exact (H9 eq_refl).
 Qed.
 
 (* ------------------------------------------------------------ the content as the pool composes it *)
